@@ -202,8 +202,15 @@ func VerifSelectorWS() {
 	atoms := vnSelSketches[vRange("sketch", 0, len(vnSelSketches)-1)]
 	seps := make([]int, len(atoms))
 	var src []byte
+	// a window of WIN consecutive token boundaries gets a solver-chosen separator, the others none
+	// (6^7 combinations for the longest sketch otherwise); the window position is solver-chosen too
+	win := vParam("WIN", 4)
+	start := 1
+	if len(atoms)-win > 1 {
+		start = vRange("start", 1, len(atoms)-win)
+	}
 	for i, a := range atoms {
-		if i > 0 && i < len(atoms)-1 || i == len(atoms)-1 {
+		if i >= start && i < start+win {
 			seps[i] = vRange("sep", 0, 5)
 			switch seps[i] {
 			case 1: // any single CSS whitespace byte
